@@ -26,6 +26,7 @@ import (
 	"net/http/httptest"
 	"os"
 	"path/filepath"
+	"strconv"
 	"strings"
 	"sync"
 	"testing"
@@ -224,10 +225,18 @@ func c19KeyText(kc int, key string, rng *verifutil.Rng) string {
 	case kcSuffix:
 		return c19q(key + c19RandStr(rng, rng.Range(1, 3)))
 	case kcCase:
-		return c19q(c19SwapCase(key))
+		if sw := c19SwapCase(key); sw != key {
+			return c19q(sw)
+		}
+		return c19q(key + "A") // a key without letters has no case variant
+
 	case kcCorrect:
 		return c19q(key)
 	case kcNumber:
+		// (a key that reads like a number, sent as the bare number)
+		if _, err := strconv.ParseInt(key, 10, 64); err == nil && rng.Intn(3) != 0 {
+			return key
+		}
 		return []string{"0", "12345", "-1"}[rng.Intn(3)]
 	case kcNull:
 		return "null"
@@ -269,8 +278,14 @@ func c19KeyText(kc int, key string, rng *verifutil.Rng) string {
 	case kcNul:
 		return `"` + key + `\u0000"`
 	case kcBool:
+		if (key == "true" || key == "false") && rng.Intn(3) != 0 {
+			return key
+		}
 		return []string{"true", "false"}[rng.Intn(2)]
 	case kcFloat:
+		if key == "1.55" {
+			return key
+		}
 		return "1.5"
 	case kcLong:
 		return c19q(key + strings.Repeat("A", 2000))
@@ -1567,7 +1582,13 @@ func (h *c19harness) wantSample(s *c19session, c c19case, els []c19elem, nKeyed 
 	}
 }
 
+// c19LiteralKeys: operator-chosen keys whose text reads like a JSON literal (--apikey 123456).
+var c19LiteralKeys = []string{"123456", "20240615", "true", "false", "null", "1.55", "-127"}
+
 func c19MakeKey(rng *verifutil.Rng) string {
+	if rng.Intn(4) == 0 {
+		return c19LiteralKeys[rng.Intn(len(c19LiteralKeys))]
+	}
 	if rng.Bool() {
 		// what the node generates: 32 lower-case hex digits
 		k := []byte(verifutil.Hex(rng.Bytes(16)))
@@ -1587,7 +1608,12 @@ func TestVerifC19ApiKeyGate(t *testing.T) {
 	rep := verifutil.NewReport()
 	defer rep.Write()
 	h := &c19harness{rep: rep, timeout: 30 * time.Second, sampled: map[string]int{}}
-	h.key = c19MakeKey(verifutil.NewRng(verifutil.Seed(), 19, 7))
+	h.key = c19MakeKey(verifutil.NewRng(verifutil.Seed(), 19, 7, uint64(verifutil.Shard())))
+	if verifutil.Shard()%4 == 3 {
+		// one process in four runs with an operator-chosen key that reads like a JSON literal
+		h.key = c19LiteralKeys[(int(verifutil.Seed())+verifutil.Shard()/4)%len(c19LiteralKeys)]
+		rep.Count("processes_with_literal_like_key", 1)
+	}
 	h.invalidKey = int64((&invalidApiKeyError{}).ErrorCode())
 	shard, nshards := verifutil.Shard(), verifutil.NShards()
 
